@@ -1746,7 +1746,8 @@ def pack_domain():
     small = ['N', 'I', 'F', ('S', 'minus-one')]
     for layout in PACK_LAYOUTS:
         ndim = len(layout)
-        seqs = [(k,) for k in kinds] + [(a, b) for a in kinds for b in kinds]
+        # pairs: the axes are treated independently, so one entry ranges over every kind while the other stays in the representative set
+        seqs = [(k,) for k in kinds] + [(a, b) for a in kinds for b in kinds if a in small or b in small]
         if ndim == 2:
             seqs += [(a, b, c) for a in small for b in small for c in small]
         for seq in seqs:
@@ -1787,13 +1788,15 @@ def _merged_class(classes):
     return ast.ClassDef(name=classes[0].name, bases=[], keywords=[], body=body, decorator_list=[]), consts
 
 
-def pack_table(folder, fname, index_cls, slice_cls, report, modules):
+def pack_table(folder, fname, index_cls, slice_cls, report, modules, layouts=None):
     """fold <fname> on every (layout, index sequence): indexings that produce a view go through the slice node class up to the construction of the result type,
     complete integer indexings through the index node class (their result has no axes)"""
     n = 0
     icls, iconsts = _merged_class([index_cls])
     scls, sconsts = _merged_class([slice_cls, index_cls])
     for layout, seq in pack_domain():
+        if layouts is not None and layout not in layouts:
+            continue
         n += 1
         what = 'analyse_types of %s for a view with axes %s' % (_pack_show(seq), layout)
         captured, errors = [], []
@@ -1826,6 +1829,9 @@ def pack_table(folder, fname, index_cls, slice_cls, report, modules):
             continue
         if is_view and not errors:
             t = res.attrs.get('type') if isinstance(res, MNode) else None
+            if isinstance(t, MNode) and t.attrs.get('is_error'):
+                report('valid-index-rejected', '%s gives the result the error type without reporting an error: a valid indexing does not compile' % what)
+                continue
             if not (isinstance(t, MNode) and isinstance(t.attrs.get('axes'), list)):
                 raise AnalysisError('C16-PACK: %s does not leave a memoryview type in .type of the node it returns (%r)' % (what, t))
             captured.append(list(t.attrs['axes']))
@@ -1925,7 +1931,7 @@ def rule_pack(ctx):
     r = Rule('C16-PACK', 'ExprNodes.MemoryViewIndexNode.analyse_types folded on every sequence of index kinds (None, integer, slice x the complete partition of a step at compile time: '
              'absent, constant 1 / True / -1 / 2 / -2 / 0, run-time value, not computed) for the access/packing layouts of 1- and 2-dimensional views: a sliced axis takes the '
              'specification of the source axis it consumes, keeps its access mode, and keeps a contig / follow packing only when the stride provably survives the slice '
-             '(no step or constant step 1)', floor=1100)
+             '(no step or constant step 1)', floor=800)
     tree = ctx.parse(EXN)
     cls = next((n for n in tree.body if isinstance(n, ast.ClassDef) and n.name == 'MemoryViewIndexNode'), None)
     scls = next((n for n in tree.body if isinstance(n, ast.ClassDef) and n.name == 'MemoryViewSliceNode'), None)
@@ -1956,7 +1962,7 @@ def rule_pack(ctx):
     pmods = {'getattr': lambda o, n, *d: pf.attribute(o, n), 'setattr': lambda o, n, v: o.attrs.__setitem__(n, v)}
     pc_index = ast.ClassDef(name='MemoryViewIndexNode', bases=[], keywords=[], body=[ast.parse(_PACK_PC).body[0]], decorator_list=[])
     pc_slice = ast.ClassDef(name='MemoryViewSliceNode', bases=[], keywords=[], body=[ast.parse(_PACK_PC).body[1]], decorator_list=[])
-    pack_table(pf, 'analyse_types', pc_index, pc_slice, lambda cat, msg: hits.append(cat), pmods)
+    pack_table(pf, 'analyse_types', pc_index, pc_slice, lambda cat, msg: hits.append(cat), pmods, layouts=PACK_LAYOUTS[:1])
     r.positive_control('packing:minus-one' in hits and 'packing:one' not in hits and 'packing:two' not in hits and not any(h.startswith('access') or h == 'axis-count' for h in hits),
                        'a constant step of -1 treated like a unit step (abs(step) == 1): the reversed view of a contiguous axis stays typed contig')
     return r
